@@ -273,9 +273,14 @@ def r4_effect_free(ctx, rule):
             if isinstance(n, ast.Call) and isinstance(n.func, ast.Attribute) and n.func.attr in ('train',):
                 bad = True
                 ctx.bad(rule, q, 'calls %s during scoring' % U(n.func), 'scoring must not train', None, n)
-            if isinstance(n, ast.Call) and call_name(n) in ('lru_cache', 'functools.lru_cache', 'functools.cache', 'cache'):
+            if isinstance(n, ast.Call) and call_name(n) in ('lru_cache', 'functools.lru_cache', 'functools.cache', 'cache') \
+                    and not any(n is d_ or n is getattr(d_, 'func', None) for d_ in getattr(fn, 'decorator_list', [])):
                 bad = True
                 ctx.bad(rule, q, 'memoisation ' + U(n)[:50], 'detector results are mutable lists', None, n)
+    # a memoising DECORATOR is harmless exactly when no caller changes the cached object in place (a table builder such as
+    # get_tld_list() whose result is only iterated); the discipline is checked over the scorer's whole closure
+    from .common import memo_discipline
+    memo_discipline(ctx, rule, ['password_scorer.py'], SP)
     # no memoising wrapper bound to the scorer
     for q, fn in ctx.repo.all_funcs():
         if q.startswith(SPF):
